@@ -62,48 +62,60 @@ structure HOut where
   pb : Int
 deriving Repr, DecidableEq, Inhabited
 
+/-- read offset of an axis (0 without a fused slice read) -/
+def offOf (o : Option Int) : Int := match o with | some x => x | none => 0
+
 /-- Height axis (`[-3]`) of `transform_with_strides_and_skirt`.
-    `y0 y1`: OFM box rows; `concat`: write offset; `split`: read offset (rows);
+    `y0 y1`: OFM box rows; `concat`: write offset; `split`: read offset (rows) of a fused slice read;
     `ss = some (stride, skirt_top, skirt_bottom)` when both `strides` and `skirt` are given;
-    `H`: IFM height; `up`: upscaling factor (≥ 1, checked by the caller); `kdil`: dilated kernel height. -/
+    `H`: number of rows the operator can read (the IFM height; the height of the slice when strides/skirt
+    are given and the operator was fused with a slice read); `up`: upscaling factor (≥ 1, checked by the
+    caller); `kdil`: dilated kernel height.
+    With strides/skirt the box is computed in the rows of the slice and moved by the read offset at the end;
+    without upscaling the kernel positions follow the OFM rows (`ofmEnd`), not the rows clipped to `H`. -/
 def transformH (y0 y1 concat : Int) (split : Option Int) (ss : Option (Int × Int × Int))
     (H up kdil : Int) : HOut :=
-  let off := match split with | some o => o | none => 0
-  let s0 := y0 - concat + off
-  let e0 := y1 - concat + off
-  let e1 := min e0 (H * up)
+  let off := offOf split
   match ss with
-  | none => ⟨s0, e1, 0, 0⟩
+  | none =>
+    let s0 := y0 - concat + off
+    let e0 := y1 - concat + off
+    ⟨s0, min e0 (H * up), 0, 0⟩
   | some (stride, skT, skB) =>
+    let s0 := y0 - concat
+    let e0 := y1 - concat
+    let e1 := min e0 (H * up)
+    let ofmEnd := if up = 1 then e0 else e1
     let rem := skT % up
-    let total := stride * (e1 - s0 - 1)
+    let total := stride * (ofmEnd - s0 - 1)
     let ns := s0 * stride - skT + rem
     let pt := max 0 (0 - ns) + rem
     let ns' := max ns 0
     let pb :=
-      if e1 * stride + skB > H * up then
+      if ofmEnd * stride + skB > H * up then
         if up ≠ 1 ∧ e0 > H * up then e0 - H * up
         else max 0 (ns' - pt + total + kdil - H * up)
       else 0
-    let a := max (ns' / up) 0
-    let b := max (min ((e1 * stride + skB + skB % up) / up) H) 1
+    let a := max (ns' / up) 0 + off
+    let b := max (min ((e1 * stride + skB + skB % up) / up) H) 1 + off
     ⟨a, b, pt, pb⟩
 
 /-- Width axis (`[-2]`): IFM columns `[a, b)`.
     `split = some (offset, shape)` (width components of the read offset / read shape);
-    `ss = some (stride, skirt_left, skirt_right)`. -/
+    `ss = some (stride, skirt_left, skirt_right)`. With strides/skirt and a fused slice read the columns are
+    those of the slice, moved by the read offset after the scaling. -/
 def transformW (x0 x1 concat : Int) (split : Option (Int × Int)) (ss : Option (Int × Int × Int))
     (W up : Int) : Int × Int :=
-  let off := match split with | some (o, _) => o | none => 0
-  let s0 := x0 - concat + off
-  let e0 := x1 - concat + off
-  let e1 := min e0 (W * up)
   match ss with
-  | none => (s0, e1)
+  | none =>
+    let off := match split with | some (o, _) => o | none => 0
+    (x0 - concat + off, min (x1 - concat + off) (W * up))
   | some (stride, skL, skR) =>
+    let s0 := x0 - concat
+    let e1 := min (x1 - concat) (W * up)
     match split with
     | none => (max (s0 * stride - skL) 0, min (e1 * stride + skR) W)
-    | some (o, shp) => (max (s0 * stride - skL) o, min (e1 * stride + skR) (o + shp))
+    | some (o, shp) => (max (s0 * stride - skL + o) o, min (e1 * stride + skR + o) (o + shp))
 
 /-- Depth axis (`[-1]`). `fullDepth`: block type is ConvolutionMxN, VectorProduct or ReduceSum. -/
 def transformC (c0 c1 concat : Int) (split : Option (Int × Int)) (fullDepth : Bool) (D : Int) : Int × Int :=
@@ -147,7 +159,11 @@ def transform (i : TIn) : Except Err (Box4 × Int × Int) :=
   let nOff := match i.split with | some (o, _) => o.n | none => 0
   let n0 := i.box.s.n - i.concat.n + nOff
   let n1 := i.box.e.n - i.concat.n + nOff
-  let hh := transformH i.box.s.h i.box.e.h i.concat.h (i.split.map (·.1.h)) ssH i.ifm.h i.up i.kdil
+  -- `ifm_shape = ifm_shape.with_height(split_shape[-3])` for a fused slice read of a strided (non-elementwise) operator
+  let hRows := match ssH, i.split with
+    | some _, some (_, shp) => if i.binEw then i.ifm.h else shp.h
+    | _, _ => i.ifm.h
+  let hh := transformH i.box.s.h i.box.e.h i.concat.h (i.split.map (·.1.h)) ssH hRows i.up i.kdil
   let ww := transformW i.box.s.w i.box.e.w i.concat.w (i.split.map fun p => (p.1.w, p.2.w)) ssW i.ifm.w i.up
   let cc := transformC i.box.s.c i.box.e.c i.concat.c (i.split.map fun p => (p.1.c, p.2.c)) i.fullDepth i.ifm.c
   let s : Coord := ⟨n0, hh.a, ww.1, cc.1⟩
